@@ -1,10 +1,273 @@
-(* Proofs/Deriv.v — C03: symbolic derivatives are the derivative. *)
-From Coq Require Import ZArith NArith List Bool Reals Lra Lia.
+(* Proofs/Deriv.v — C03: symbolic derivatives are the derivative, and the result
+   is again a well-formed polynomial.  R instance of Model/Poly.v. *)
+From Coq Require Import ZArith NArith List Bool Reals Lra Lia Permutation Sorted.
 From Coquelicot Require Import Coquelicot.
 From SV Require Import Base.Num Base.Outcome Model.Poly Proofs.PolyLemmas.
 Import ListNotations.
 Local Open Scope R_scope.
 
+(** * Univariate type *)
+
 Lemma c03_simple : forall (p : spoly R) (x : R),
   is_derive (eval_simple p) x (eval_simple (simple_derivative p) x).
 Proof. exact simple_derive. Qed.
+
+(* the by-name entry point: the polynomial's own variable differentiates, any other
+   name returns the polynomial unchanged (the crate's documented behaviour) *)
+Lemma c03_simple_wrappers : forall (p : spoly R) (v : name),
+  s_derivate_univariate p = Ok (simple_derivative p) /\
+  (first_char_is v (s_var p) = true -> s_derivate_multivariate p v = simple_derivative p) /\
+  (first_char_is v (s_var p) = false -> s_derivate_multivariate p v = p) /\
+  (forall x, s_eval_univariate p x = Ok (eval_simple p x)).
+Proof.
+  intros p v. unfold s_derivate_multivariate.
+  repeat split; try reflexivity; intros ->; reflexivity.
+Qed.
+
+(** * Multivariate type: one term *)
+
+(* value of the optional term returned by deriv_vars *)
+Definition opt_term_val (o : option (term R)) (e : env R) : R :=
+  match o with Some d => term_val d e | None => 0 end.
+
+Lemma deriv_vars_derive (c : R) (v : name) (e : env R) (x : R) : forall vs pre,
+  NoDup (keys (rev pre ++ vs)) -> ~ In v (keys pre) ->
+  (forall p, In (v, p) vs -> dom_pow p x) ->
+  is_derive (fun t => c * vars_prod (rev pre ++ vs) (upd e v t)) x
+            (opt_term_val (deriv_vars c pre vs v) (upd e v x)).
+Proof.
+  induction vs as [|[k p] vs IH]; intros pre Hnd Hpre Hdom.
+  - cbn [deriv_vars opt_term_val]. rewrite app_nil_r.
+    replace 0 with (c * 0) by ring. apply is_derive_scal_const.
+    apply vars_prod_const_derive. unfold keys. rewrite map_rev, <- in_rev. exact Hpre.
+  - cbn [deriv_vars]. destruct (name_eqb k v) eqn:Ek.
+    + apply name_eqb_eq in Ek. subst k.
+      destruct (nodup_keys_split _ _ _ _ Hnd) as [Hv1 Hv2].
+      cbn [neqb n0 nsub n1 nmul RNum].
+      destruct (Reqb p 0) eqn:Ep0.
+      * (* exponent 0: the term is constant in v and is dropped *)
+        apply Reqb_true in Ep0. subst p. cbn [opt_term_val].
+        assert (E : forall t : R, c * (vars_prod (rev pre) e * vars_prod vs e)
+                                  = c * vars_prod (rev pre ++ (v, 0) :: vs) (upd e v t)).
+        { intro t. rewrite vars_prod_split by assumption. rewrite Rpowf_0. ring. }
+        eapply is_derive_ext; [exact E|]. apply @is_derive_const.
+      * apply Reqb_false in Ep0.
+        assert (Hd : dom_pow p x) by (apply Hdom; left; reflexivity).
+        pose proof (vars_prod_split_derive (rev pre) vs e v p x Hv1 Hv2 Ep0 Hd) as HD.
+        apply (is_derive_scal_const _ c) in HD.
+        destruct (Reqb (p - 1) 0) eqn:Ep1; cbn [opt_term_val]; unfold term_val; cbn [t_coef t_vars].
+        -- (* new exponent 0: the variable disappears from the term *)
+           apply Reqb_true in Ep1.
+           replace (c * p * vars_prod (rev pre ++ vs) (upd e v x))
+             with (c * (p * vars_prod (rev pre ++ (v, p - 1) :: vs) (upd e v x))); [exact HD|].
+           rewrite vars_prod_split by assumption. rewrite Ep1, Rpowf_0.
+           rewrite vars_prod_app, !vars_prod_upd_absent by assumption. ring.
+        -- replace (c * p * vars_prod (rev pre ++ (v, p - 1) :: vs) (upd e v x))
+             with (c * (p * vars_prod (rev pre ++ (v, p - 1) :: vs) (upd e v x))) by ring.
+           exact HD.
+    + apply name_eqb_neq in Ek.
+      assert (Eq : rev ((k, p) :: pre) ++ vs = rev pre ++ (k, p) :: vs).
+      { cbn [rev]. rewrite <- app_assoc. reflexivity. }
+      specialize (IH ((k, p) :: pre)). rewrite Eq in IH. apply IH.
+      * exact Hnd.
+      * cbn [keys map fst In]. intros [H|H]; [apply Ek; exact H|apply Hpre; exact H].
+      * intros q Hq. apply Hdom. right. exact Hq.
+Qed.
+
+(* shape of the derived term *)
+Lemma deriv_vars_shape (c : R) (v : name) : forall vs pre d,
+  deriv_vars c pre vs v = Some d ->
+  exists post1 p post2, vs = post1 ++ (v, p) :: post2 /\ ~ In v (keys post1) /\ p <> 0 /\
+    t_coef d = c * p /\
+    ((p - 1 = 0 /\ t_vars d = rev pre ++ post1 ++ post2) \/
+     (p - 1 <> 0 /\ t_vars d = rev pre ++ post1 ++ (v, p - 1) :: post2)).
+Proof.
+  induction vs as [|[k p] vs IH]; intros pre d H; cbn [deriv_vars] in H; [discriminate|].
+  destruct (name_eqb k v) eqn:Ek.
+  - apply name_eqb_eq in Ek. subst k. cbn [neqb n0 nsub n1 nmul RNum] in H.
+    destruct (Reqb p 0) eqn:Ep0; [discriminate|]. apply Reqb_false in Ep0.
+    exists [], p, vs. split; [reflexivity|]. split; [intros []|]. split; [exact Ep0|].
+    destruct (Reqb (p - 1) 0) eqn:Ep1; injection H as <-; cbn [t_coef t_vars app].
+    + apply Reqb_true in Ep1. split; [reflexivity|]. left. split; [exact Ep1|reflexivity].
+    + apply Reqb_false in Ep1. split; [reflexivity|]. right. split; [exact Ep1|reflexivity].
+  - apply name_eqb_neq in Ek.
+    destruct (IH _ _ H) as (post1 & q & post2 & -> & Hv & Hq & Hc & Hs).
+    exists ((k, p) :: post1), q, post2. split; [reflexivity|].
+    split. { cbn [keys map fst In]. intros [E|E]; [apply Ek; exact E|apply Hv; exact E]. }
+    split; [exact Hq|]. split; [exact Hc|].
+    cbn [rev] in Hs. rewrite <- !app_assoc in Hs. exact Hs.
+Qed.
+
+Lemma deriv_vars_none (c : R) (v : name) : forall vs pre,
+  ~ In v (keys vs) -> deriv_vars c pre vs v = None.
+Proof.
+  induction vs as [|[k p] vs IH]; intros pre H; cbn [deriv_vars]; [reflexivity|].
+  cbn [keys map fst In] in H.
+  destruct (name_eqb k v) eqn:Ek.
+  - apply name_eqb_eq in Ek. exfalso. apply H. left. exact Ek.
+  - apply IH. intro Hin. apply H. right. exact Hin.
+Qed.
+
+(* keys of the derived term: those of the source, possibly without v *)
+Lemma deriv_vars_keys (c : R) (v : name) vs d :
+  deriv_vars c [] vs v = Some d ->
+  incl (keys (t_vars d)) (keys vs) /\ (NoDup (keys vs) -> NoDup (keys (t_vars d))) /\
+  (NoDup (keys vs) -> forall q, In (v, q) (t_vars d) -> q <> 0) /\
+  (forall k q, k <> v -> In (k, q) (t_vars d) -> In (k, q) vs).
+Proof.
+  intro H. destruct (deriv_vars_shape c v vs [] d H) as (post1 & p & post2 & -> & Hv & Hp & _ & Hs).
+  cbn [rev app] in Hs.
+  destruct Hs as [[Hp1 ->]|[Hp1 ->]].
+  - repeat split.
+    + rewrite !keys_app. cbn [keys map fst]. intros k Hk. apply in_app_or in Hk.
+      apply in_or_app. destruct Hk as [Hk|Hk]; [left; exact Hk|right; right; exact Hk].
+    + rewrite !keys_app. cbn [keys map fst]. apply NoDup_remove_1.
+    + intros Hnd q Hq. exfalso.
+      destruct (nodup_keys_split _ _ _ _ Hnd) as [H1 H2].
+      apply in_app_or in Hq. destruct Hq as [Hq|Hq].
+      * apply H1. apply in_map_iff. exists (v, q). split; [reflexivity|exact Hq].
+      * apply H2. apply in_map_iff. exists (v, q). split; [reflexivity|exact Hq].
+    + intros k q Hk Hq. apply in_app_or in Hq. apply in_or_app.
+      destruct Hq as [Hq|Hq]; [left; exact Hq|right; right; exact Hq].
+  - repeat split.
+    + rewrite !keys_app. cbn [keys map fst]. intros k Hk. exact Hk.
+    + rewrite !keys_app. cbn [keys map fst]. exact (fun H => H).
+    + intros Hnd q Hq.
+      destruct (nodup_keys_split _ _ _ _ Hnd) as [H1 H2].
+      apply in_app_or in Hq. destruct Hq as [Hq|[Hq|Hq]].
+      * exfalso. apply H1. apply in_map_iff. exists (v, q). split; [reflexivity|exact Hq].
+      * injection Hq as <-. exact Hp1.
+      * exfalso. apply H2. apply in_map_iff. exists (v, q). split; [reflexivity|exact Hq].
+    + intros k q Hk Hq. apply in_app_or in Hq. apply in_or_app.
+      destruct Hq as [Hq|[Hq|Hq]]; [left; exact Hq| |right; right; exact Hq].
+      injection Hq as E _. exfalso. apply Hk. symmetry. exact E.
+Qed.
+
+(** * Multivariate type: term lists *)
+
+(* natural domain for differentiation in v at x: every exponent p of v is integral with
+   p >= 0 or x <> 0, or else x > 0.  (The other variables are constants here: their
+   factors Rpowf y q are real numbers whatever y and q are; they agree with the
+   implementation's powf on powf's natural domain.) *)
+Definition dom_deriv (ts : list (term R)) (v : name) (x : R) : Prop :=
+  forall t, In t ts -> forall p, In (v, p) (t_vars t) -> dom_pow p x.
+
+Lemma deriv_terms_derive (v : name) (e : env R) (x : R) : forall ts,
+  wf_terms ts -> dom_deriv ts v x ->
+  is_derive (fun t => terms_sum ts (upd e v t)) x (terms_sum (deriv_terms ts v) (upd e v x)).
+Proof.
+  induction ts as [|tm ts IH]; intros Hwf Hdom.
+  - cbn [terms_sum deriv_terms]. apply @is_derive_const.
+  - assert (IH' : is_derive (fun t => terms_sum ts (upd e v t)) x (terms_sum (deriv_terms ts v) (upd e v x))).
+    { apply IH.
+      - intros t Ht. apply Hwf. right. exact Ht.
+      - intros t Ht. apply Hdom. right. exact Ht. }
+    assert (H1 : is_derive (fun t => term_val tm (upd e v t)) x
+                   (opt_term_val (deriv_vars (t_coef tm) [] (t_vars tm) v) (upd e v x))).
+    { apply (deriv_vars_derive (t_coef tm) v e x (t_vars tm) []).
+      - cbn [rev app]. apply Hwf. left. reflexivity.
+      - intros [].
+      - apply Hdom. left. reflexivity. }
+    cbn [terms_sum deriv_terms].
+    destruct (deriv_vars (t_coef tm) [] (t_vars tm) v) as [d|]; cbn [opt_term_val terms_sum] in *.
+    + apply @is_derive_plus; assumption.
+    + replace (terms_sum (deriv_terms ts v) (upd e v x))
+        with (0 + terms_sum (deriv_terms ts v) (upd e v x)) by ring.
+      apply @is_derive_plus; assumption.
+Qed.
+
+Lemma deriv_terms_in (v : name) : forall (ts : list (term R)) d,
+  In d (deriv_terms ts v) -> exists t, In t ts /\ deriv_vars (t_coef t) [] (t_vars t) v = Some d.
+Proof.
+  induction ts as [|tm ts IH]; intros d H; cbn [deriv_terms] in H; [contradiction|].
+  destruct (deriv_vars (t_coef tm) [] (t_vars tm) v) as [d0|] eqn:E.
+  - destruct H as [<-|H].
+    + exists tm. split; [left; reflexivity|exact E].
+    + destruct (IH d H) as [t [Ht Hd]]. exists t. split; [right; exact Ht|exact Hd].
+  - destruct (IH d H) as [t [Ht Hd]]. exists t. split; [right; exact Ht|exact Hd].
+Qed.
+
+Lemma deriv_terms_bound (v : name) ts e : terms_bound ts e -> terms_bound (deriv_terms ts v) e.
+Proof.
+  intros H d Hd k Hk. destruct (deriv_terms_in v ts d Hd) as [t [Ht E]].
+  apply (H t Ht). apply (proj1 (deriv_vars_keys _ _ _ _ E)). exact Hk.
+Qed.
+
+Lemma deriv_terms_wf (v : name) ts : wf_terms ts -> wf_terms (deriv_terms ts v).
+Proof.
+  intros H d Hd. destruct (deriv_terms_in v ts d Hd) as [t [Ht E]].
+  apply (proj1 (proj2 (deriv_vars_keys _ _ _ _ E))). apply H. exact Ht.
+Qed.
+
+Lemma partial_derivative_terms (ts : list (term R)) v :
+  i_terms (partial_derivative ts v) = map sort_term (deriv_terms ts v).
+Proof. reflexivity. Qed.
+
+(* C03, main statement for the multivariate type *)
+Lemma c03_partial : forall (ts : list (term R)) (v : name) (e : env R) (x : R),
+  wf_terms ts -> terms_bound ts (upd e v x) -> dom_deriv ts v x ->
+  exists (f : R -> R) (d : R),
+    (forall t, eval_inter ts (upd e v t) = Ok (f t)) /\
+    eval_inter (i_terms (partial_derivative ts v)) (upd e v x) = Ok d /\
+    is_derive f x d.
+Proof.
+  intros ts v e x Hwf Hb Hdom.
+  exists (fun t => terms_sum ts (upd e v t)), (terms_sum (deriv_terms ts v) (upd e v x)).
+  split; [|split].
+  - intro t. apply eval_inter_ok. eapply terms_bound_upd. exact Hb.
+  - rewrite partial_derivative_terms, eval_inter_ok.
+    + rewrite terms_sum_sort. reflexivity.
+    + apply terms_bound_sort. apply deriv_terms_bound. exact Hb.
+  - apply deriv_terms_derive; assumption.
+Qed.
+
+(* terms without the variable vanish: an absent name (in particular every multi-letter
+   name, the parsers produce one-letter names only) gives the zero polynomial *)
+Lemma deriv_terms_absent (v : name) : forall ts,
+  (forall t, In t ts -> ~ In v (keys (t_vars t))) -> deriv_terms ts v = [].
+Proof.
+  induction ts as [|tm ts IH]; intro H; cbn [deriv_terms]; [reflexivity|].
+  rewrite deriv_vars_none by (apply H; left; reflexivity).
+  apply IH. intros t Ht. apply H. right. exact Ht.
+Qed.
+
+Lemma c03_absent : forall (ts : list (term R)) (v : name),
+  (forall t, In t ts -> ~ In v (keys (t_vars t))) ->
+  partial_derivative ts v = {| i_terms := []; i_vars := [] |}.
+Proof.
+  intros ts v H. unfold partial_derivative. rewrite deriv_terms_absent by exact H. reflexivity.
+Qed.
+
+Definition single_letter_terms (ts : list (term R)) : Prop :=
+  forall t, In t ts -> forall k, In k (keys (t_vars t)) -> length k = 1%nat.
+
+Lemma c03_multi_letter : forall (ts : list (term R)) (v : name),
+  single_letter_terms ts -> length v <> 1%nat ->
+  partial_derivative ts v = {| i_terms := []; i_vars := [] |}.
+Proof.
+  intros ts v H Hv. apply c03_absent. intros t Ht Hin. apply Hv. exact (H t Ht v Hin).
+Qed.
+
+(* every term of the derivative comes from a term that contains the variable with a
+   non-zero exponent; the variable never remains with exponent 0; the other factors
+   are untouched *)
+Lemma c03_terms_shape : forall (ts : list (term R)) (v : name) (d : term R),
+  wf_terms ts -> In d (i_terms (partial_derivative ts v)) ->
+  (exists t p, In t ts /\ In (v, p) (t_vars t) /\ p <> 0 /\ t_coef d = t_coef t * p /\
+      (forall k q, k <> v -> In (k, q) (t_vars d) -> In (k, q) (t_vars t))) /\
+  (forall q, In (v, q) (t_vars d) -> q <> 0).
+Proof.
+  intros ts v d Hwf Hd. rewrite partial_derivative_terms in Hd.
+  apply in_map_iff in Hd. destruct Hd as [d0 [<- Hd0]].
+  destruct (deriv_terms_in v ts d0 Hd0) as [t [Ht E]].
+  pose proof (deriv_vars_keys _ _ _ _ E) as (_ & _ & Hz & Ho).
+  destruct (deriv_vars_shape _ _ _ _ _ E) as (post1 & p & post2 & Hvs & _ & Hp & Hc & _).
+  assert (Hperm : forall kq, In kq (t_vars (sort_term d0)) -> In kq (t_vars d0)).
+  { intros kq. apply Permutation_in. apply sort_vars_perm. }
+  split.
+  - exists t, p. split; [exact Ht|]. split.
+    { rewrite Hvs. apply in_or_app. right. left. reflexivity. }
+    split; [exact Hp|]. split; [exact Hc|].
+    intros k q Hk Hq. apply Ho; [exact Hk|]. apply Hperm. exact Hq.
+  - intros q Hq. apply Hz; [apply Hwf; exact Ht|]. apply Hperm. exact Hq.
+Qed.
